@@ -31,6 +31,10 @@ FIELD = [0, 1, 0x7FFFFFFF, 0x80000000, 0xFFFFFFFF]
 HASHES = [0, 1, 2 ** 63, 2 ** 64 - 1, 0x0102030405060708]
 
 
+def hosts(tier):
+    return common.HOSTS
+
+
 def prepare(tier):
     hd = common.datasets("headers", common.REFS)
     pg = common.datasets("progs", common.REFS, 1)
